@@ -2,5 +2,5 @@
 EXTENDS Integers, Sequences, FiniteSets, TLC
 CONSTANTS Devs
 VARIABLES disk, mem, pc, enabled, fresh, starts, seen
-INSTANCE Identity WITH Items <- {"ssh", "ftp"}, Deviations <- Devs, MaxStarts <- 3
+INSTANCE Identity WITH Items <- {"ssh", "ftp"}, Pairs <- {"ftp"}, Deviations <- Devs, MaxStarts <- 3
 =============================================================================
